@@ -186,6 +186,42 @@ func runC18(w *W) {
 			if l.GetTimeChong() != zhiS[(tz+6)%12] {
 				w.Viol("C18:law:chong:hour:"+d.Ymd, fmt.Sprintf("%s: hour clash branch %q for hour branch %s", wit, l.GetTimeChong(), zhiS[tz]), wit)
 			}
+			// ---- fortune objects carry a stem-branch pair too: their xun / empty branches are those of that pair (same
+			// dependence table as the hour pillar's; one gender and school per state, rotating)
+			if k == d.J%13 {
+				if _, p := try(func() {
+					yun := l.GetEightChar().GetYunBySect(d.J%2, 1+(d.J/2)%2)
+					chk := func(kind, gzs, xun, kong string) {
+						if gzs == "" {
+							return
+						}
+						fd("pairXun", gzs, js(xun, kong), wit+" "+kind)
+						w.R.Evals++
+					}
+					dys := yun.GetDaYun()
+					for i, dy := range dys {
+						chk("DaYun", dy.GetGanZhi(), dy.GetXun(), dy.GetXunKong())
+						if i != (d.J/4)%len(dys) {
+							continue
+						}
+						for _, ln := range dy.GetLiuNian() {
+							chk("LiuNian", ln.GetGanZhi(), ln.GetXun(), ln.GetXunKong())
+						}
+						for _, xy := range dy.GetXiaoYun() {
+							chk("XiaoYun", xy.GetGanZhi(), xy.GetXun(), xy.GetXunKong())
+						}
+						if lns := dy.GetLiuNian(); len(lns) > 0 {
+							for _, ly := range lns[(d.J/40)%len(lns)].GetLiuYue() {
+								chk("LiuYue", ly.GetGanZhi(), ly.GetXun(), ly.GetXunKong())
+							}
+						}
+					}
+				}); p {
+					// totality of the fortune objects is C08's business
+				}
+				fd("pairXun", tgz, js(l.GetTimeXun(), l.GetTimeXunKong()), wit)
+				fd("pairXun", dgz, js(l.GetDayXun(), l.GetDayXunKong()), wit)
+			}
 			// ---- eight characters: per-pillar attributes keyed by the pillar (and the day stem where the definition uses it)
 			ec := l.GetEightChar()
 			for _, sect := range []int{1, 2} {
